@@ -114,6 +114,10 @@ def _impl_renders(case):
             same = bool(np.array_equal(img, raw["px"]))
             r2 = _try(lambda: _canon_maze(_cls(case["kind"]).from_pixels(img)))
             kept = dict(image_unchanged=same, second_read_same=(r1 == r2))
+        if "err" not in a and kept is not None and reads_a is not None:
+            # the text as it comes out of a file or a docstring: blank lines around it, every line indented and right-padded
+            padded = "\n \n" + "\n".join("   " + ln + "  " for ln in raw["asc"].split("\n")) + "\n\n"
+            kept["padded_text_same"] = _try(lambda: _canon_maze(_cls(case["kind"]).from_ascii(padded))) == reads_a.get(case["kind"])
         outs.append(dict(se=se, ss=ss, pixels=p, ascii=a, reads=reads, reads_ascii=reads_a, kept=kept))
     return outs
 
@@ -236,6 +240,8 @@ def _oracle(case, renders):
             d = _bfs_dist(case, case["solution"][0], case["solution"][-1])
             if d is not None and d == len(case["solution"]) - 1:
                 want = dict(kind="solved", rows=case["rows"], cols=case["cols"], edges=sorted(case["edges"]), solution=case["solution"])
+        if rd.get("kept") and rd["kept"].get("padded_text_same") is False:
+            bad.append(f"from_ascii on as_ascii({tag}) surrounded by blank lines, indented and right-padded does not give what the bare text gives")
         if rd.get("kept") and not (rd["kept"]["image_unchanged"] and rd["kept"]["second_read_same"]):
             bad.append(f"from_pixels on the picture as_pixels({tag}) returned {'changed the caller\'s image in place' if not rd['kept']['image_unchanged'] else 'left the image alone'}"
                        f"{'' if rd['kept']['second_read_same'] else '; a second read of the same array gives another answer'}: the image no longer is the maze's picture")
